@@ -1,2 +1,6 @@
 def r04_3(chk):
     pass
+
+
+def r12_5(chk):
+    pass
